@@ -98,6 +98,28 @@ def many_trees_desc(rng, max_nodes=8, max_segs=8, p_gap=0.15, p_root=0.25, scale
             "mutations": [], "individuals": [], "populations": [], "migrations": []}
 
 
+def ulp_desc(rng, max_nodes=6, max_segs=8):
+    """Breakpoints that are CONSECUTIVE doubles (trees one, two or three ulps wide), with odd
+    and even mantissas, near 1.0, near binade boundaries and at large / small magnitudes: any
+    arithmetic on the coordinates (midpoints, distances) rounds to a neighbouring breakpoint."""
+    d = many_trees_desc(rng, max_nodes=max_nodes, min_segs=3, max_segs=max_segs, scale=1, max_sites=4,
+                        p_gap=0.1, churn=2)
+    base = rng.choice([1.0, math.nextafter(1.0, 2.0), math.nextafter(1.0, 0.0), 1.5, math.nextafter(2.0, 0.0),
+                       math.nextafter(4.0, 0.0), 3.0, 2.0 ** 30 + 1, 1e15, 2.0 ** 52, 2.0 ** 53 - 8, 0.1, 1e-5,
+                       7.0e5 + 0.25, 1 / 3])
+    for _ in range(rng.randrange(0, 4)):
+        base = math.nextafter(base, math.inf)           # both mantissa parities
+    coords, x = [0.0], base
+    for _ in range(d["L"]):
+        coords.append(x)
+        for _ in range(rng.choice([1, 1, 1, 2, 3])):
+            x = math.nextafter(x, math.inf)
+    d["coords"] = coords
+    d["scale"] = 1
+    d["sites"] = [[int(pos), a, m] for pos, a, m in d["sites"] if float(pos).is_integer()]
+    return d
+
+
 def pad_desc(desc, a, b):
     """Shift every coordinate by a and extend the sequence by a + b: gaps at both ends."""
     d = dict(desc)
@@ -154,8 +176,29 @@ def special_descs():
     return out
 
 
+def lat_float(desc, c):
+    """The double of lattice point c: c * scale, or desc["coords"][c] for descriptions whose
+    breakpoints are arbitrary doubles (e.g. consecutive doubles: one-ulp-wide trees)."""
+    if "coords" in desc:
+        return float(desc["coords"][c]) if 0 <= c < len(desc["coords"]) else (
+            -1.0 - abs(c) if c < 0 else float(desc["coords"][-1]) * 2 + c)
+    return c * desc.get("scale", 1)
+
+
 def build_ts(desc):
-    return gen_ts.build_tables(desc).tree_sequence()
+    if "coords" not in desc:
+        return gen_ts.build_tables(desc).tree_sequence()
+    import tskit
+    tc = tskit.TableCollection(lat_float(desc, desc["L"]))
+    for fl, t, p, i, m in desc["nodes"]:
+        tc.nodes.add_row(flags=fl, time=t)
+    for l, r, p, c, m in desc["edges"]:
+        tc.edges.add_row(lat_float(desc, l), lat_float(desc, r), p, c)
+    for pos, a, m in desc["sites"]:
+        tc.sites.add_row(lat_float(desc, int(pos)), a)
+    tc.sort()
+    tc.build_index()
+    return tc.tree_sequence()
 
 
 def pos_float(desc, pos):
@@ -167,11 +210,18 @@ def pos_float(desc, pos):
     s = desc.get("scale", 1)
     kind, v = pos
     if kind == "h":
+        if "coords" in desc:
+            a = lat_float(desc, v // 2)
+            if v % 2 == 0:
+                return a
+            b = lat_float(desc, v // 2 + 1)
+            m = a + (b - a) / 2
+            return m if a < m < b else a        # a one-ulp interval has no interior double
         return (v // 2) * s if v % 2 == 0 else (v / 2) * s
     if kind == "below":
-        return math.nextafter(v * s, -math.inf)
+        return math.nextafter(lat_float(desc, v), -math.inf)
     if kind == "above":
-        return math.nextafter(v * s, math.inf)
+        return math.nextafter(lat_float(desc, v), math.inf)
     if kind == "raw":
         return float(v)
     raise ValueError(pos)
@@ -264,10 +314,9 @@ def tree_state(tree, cmap):
 
 
 def coord_map(desc):
-    s = desc.get("scale", 1)
     m = {}
     for c in range(desc["L"] + 1):
-        m[float(c * s)] = 2 * c
+        m[float(lat_float(desc, c))] = 2 * c
     return m
 
 
@@ -347,8 +396,17 @@ def fresh_states(ts, opts, interner, cmap):
     import tskit
     kw = tree_kwargs(opts)
     null = interner.add(tree_state(tskit.Tree(ts, **kw), cmap))
-    return {"null": null,
-            "at_index": [interner.add(tree_state(ts.at_index(i, **kw), cmap)) for i in range(ts.num_trees)]}
+    out = []
+    for i in range(ts.num_trees):
+        try:
+            out.append(interner.add(tree_state(ts.at_index(i, **kw), cmap)))
+        except Exception as e:      # a fresh at_index that raises is an observation, not an adapter bug
+            out.append(interner.add({"index": "at_index(%d) raised %s" % (i, exc_name(e)), "iv": [None, None],
+                                     "parent": [], "children": [], "children_rl": [], "num_children": [],
+                                     "edge": [], "num_edges": -1, "roots": [], "num_roots": 0,
+                                     "num_samples": [], "num_tracked": [], "samples": [], "sites": [],
+                                     "num_sites": 0, "root_threshold": 0, "span": None}))
+    return {"null": null, "at_index": out}
 
 
 def table_obs(ts, cmap):
@@ -464,18 +522,15 @@ def classify_diff(desc, opts, tab, st, ref, states, fresh):
 
 
 def expected_tree_of(tab, desc, pos):
-    """Index of the tree that should contain the position (None: out of range / NaN)."""
-    l4 = pos_lattice4(desc, pos)
-    if l4 is None:
-        v = float(pos[1])
-        if v == 0.0:        # -0.0 or 0.0
-            return 0
+    """Index of the tree that should contain the position, straight from the definition on the
+    doubles: the tree k with breakpoints[k] <= x < breakpoints[k+1] (None: out of range / NaN)."""
+    x = pos_float(desc, pos)
+    bf = tab["bps_f"]
+    if x != x or not (0 <= x < bf[-1]):
         return None
-    if l4 < 0 or l4 >= 2 * tab["L2"]:
-        return None
-    k = None
-    for i, b in enumerate(tab["bps"][:-1]):
-        if 2 * b <= l4:
+    k = 0
+    for i, b in enumerate(bf[:-1]):
+        if b <= x:
             k = i
     return k
 
@@ -1333,9 +1388,30 @@ class NavBlind(NavRandom):
     name = "nav_blind"
 
     def generate(self, rng, tier):
-        n = 60 if tier == "quick" else 1200
+        n = 80 if tier == "quick" else 1600
         for k in range(n):
-            kind = k % 3
+            kind = k % 4
+            if kind == 3:       # one-ulp-wide trees: seek_index / at_index / negative indexes / copies
+                T = 0
+                while T < 3:
+                    d = ulp_desc(rng)
+                    T = num_trees_of(d)
+                bps = gen_ts.breakpoints(d)
+                ops = []
+                for _ in range(rng.choice([8, 20])):
+                    r = rng.random()
+                    if r < 0.45:
+                        ops.append(["seek_index", rng.randrange(-T, T)])
+                    elif r < 0.75:
+                        b = rng.randrange(0, T)
+                        ops.append(["seek", rng.choice([["h", 2 * bps[b]], ["h", bps[b] + bps[b + 1]],
+                                                        ["below", bps[b + 1]], ["above", bps[b]]])])
+                    elif r < 0.85:
+                        ops.append(["ll_seek_index", rng.randrange(0, T)])
+                    else:
+                        ops.append(rng.choice([["clear"], ["next"], ["prev"], ["copy"], ["swap"]]))
+                yield {"desc": d, "opts": random_opts(rng, d), "ops": ops}
+                continue
             if kind == 0:       # many trees
                 T = 0
                 while T < 30:
